@@ -246,7 +246,9 @@ impl<VM: VMBinding> crate::policy::gc_work::PolicyTraceObject<VM> for ImmixSpace
             } else {
                 self.trace_object_without_moving(queue, object)
             }
-        } else if KIND == TRACE_KIND_FAST {
+        } else if KIND == TRACE_KIND_FAST || KIND == DEFAULT_TRACE {
+            // DEFAULT_TRACE: the space is used as the common non-moving space of a plan that does
+            // not use Immix-specific trace kinds (see `may_move_objects`).
             self.trace_object_without_moving(queue, object)
         } else {
             unreachable!()
